@@ -233,12 +233,6 @@ int main(int argc, char **argv)
                            Level1 L2 = recordHistory(c2, h);
                            if (!sameLog(L.rec.ev, L2.rec.ev))
                              rep.violation("harness-internal", "nondeterministic-log", hid.str(), "two runs of the same history recorded different file operations");
-                           // and the image rebuilt from the log must be the directory the real run left behind
-                           cfs::Image real = cfs::Image::readDir(dir);
-                           cfs::Image model = imageAt(L2.rec, int(L2.rec.mutIdx.size()), 0);
-                           if (real.files != model.files)
-                             rep.violation("harness-internal", "log-does-not-rebuild-directory", hid.str(),
-                                           "image rebuilt from the recorded log differs from the directory after the run");
                          }
                          rep.counters["histories"]++;
                          rep.counters["file_operations_recorded"] += L.rec.mutIdx.size();
